@@ -137,8 +137,9 @@ pub struct KeyedHasher {
 }
 impl Hasher for KeyedHasher {
     fn finish(&self) -> u64 {
-        // spread over the word so that the real map's control bytes differ too
-        (self.acc ^ self.seed).wrapping_mul(0x9E37_79B9_7F4A_7C15)
+        // injective in (key, seed) and free of multiplication (a product with a symbolic
+        // factor is what a bit-blasting solver cannot afford)
+        self.acc ^ self.seed ^ (self.seed << 8) ^ (self.seed << 57)
     }
     fn write(&mut self, bytes: &[u8]) {
         let mut i = 0;
